@@ -18,22 +18,23 @@ type Val struct {
 	S       string
 	Sort    string
 	GT      types.Type
-	Untyped bool     // untyped integer constant; S is a decimal literal
-	Tuple   []Val    // for multi-value results
-	Place   *Place   // for pointer values with known provenance
-	Big     *big.Int // constant value when known
+	Untyped bool       // untyped integer constant; S is a decimal literal
+	Tuple   []Val      // for multi-value results
+	Place   *Place     // for pointer values with known provenance
+	Big     *big.Int   // constant value when known
 	ElemGT  types.Type // element type of a raw array (seq) value
 }
 
 // Place describes where a pointer value points, when known syntactically.
 type Place struct {
-	Kind    int // 0 generic, 1 field, 2 leaf-array element
-	Ptr     string
-	Base    string        // field: struct pointer ; elem: array pointer
-	Struct  *types.Struct // field
-	Named   types.Type    // field: the (named) struct type
-	Idx     int           // field index
-	Index   string        // elem index term
+	Kind   int // 0 generic, 1 field, 2 leaf-array element
+	Ptr    string
+	Base   string        // field: struct pointer ; elem: array pointer
+	Struct *types.Struct // field
+	Named  types.Type    // field: the (named) struct type
+	Idx    int           // field index
+	Index  string        // elem index term
+	Priv   string        // private cell key (Kind 5)
 }
 
 func app(f string, args ...string) string {
